@@ -4,6 +4,7 @@ package main
 // properties talk about.
 
 import (
+	"time"
 	"errors"
 	"fmt"
 	"runtime/debug"
@@ -284,9 +285,22 @@ func BindAndRender(err error, q string, pad int) (s string, panicked string) {
 }
 
 // Convenience: run over a fresh recording store holding pairs.
+// Hangs counts the runs that did not come back within the watchdog's deadline (the goroutine is abandoned).
+var Hangs int
+
 func RunOn(q string, pairs []KV, o RunOpts) (Outcome, *Shared) {
 	sh := &Shared{St: NewRefStore(pairs), FaultAt: o.FaultAt, Quiet: o.NoLog}
 	rec := NewRec(sh, o.P)
-	out := RunQuery(q, rec, rec, o)
-	return out, sh
+	done := make(chan Outcome, 1)
+	go func() { done <- RunQuery(q, rec, rec, o) }()
+	select {
+	case out := <-done:
+		return out, sh
+	case <-time.After(20 * time.Second):
+		// a call that never returns (a loop inside one Next/Batch call): reported, the statement is given up
+		Hangs++
+		out := Outcome{Phase: "runaway", ErrMsg: "no answer within 20s (a single Next/Batch/BuildPlan call does not return)", Rows: [][]Val{}, Fields: []string{}, Explain: []string{},
+			Plan: PlanInfo{Keys: [][]int{}, Lo: []int{}, Hi: []int{}, Scan: "NONE", Chain: []string{}}}
+		return out, &Shared{St: NewRefStore(pairs), Quiet: true}
+	}
 }
